@@ -82,6 +82,8 @@ classes = [
            meth('fired', args=['int', 'QString']), meth('fired', args=['int']),      # default-argument pair
            meth('plain'), meth('toggledTo', args=['bool']),
            meth('ovl', args=['int']), meth('ovl', args=['QString']),                  # true overload
+           meth('lvl'), meth('lvl', args=['int']), meth('lvl', args=['QString']),     # default argument AND overload
+           meth('peaked'), meth('peaked', args=['int']), meth('peaked', args=['int', 'int']),   # two default arguments
            meth('picked', args=['TSub*']), meth('moded', args=['Mode'])],
         slots=[meth('act', args=['int']), meth('actText', args=['QString']), meth('actTwo', args=['int', 'int']),
                meth('actFlag', args=['bool']), meth('actPtr', args=['TSource*']), meth('poke')],
